@@ -1,7 +1,6 @@
 open BinNums
 open BinPosDef
 open Datatypes
-open Nat
 
 module Pos =
  struct
@@ -161,19 +160,6 @@ module Pos =
     | Coq_xH -> (match q with
                  | Coq_xH -> true
                  | _ -> false)
-
-  (** val iter_op : ('a1 -> 'a1 -> 'a1) -> positive -> 'a1 -> 'a1 **)
-
-  let rec iter_op op p a =
-    match p with
-    | Coq_xI p0 -> op a (iter_op op p0 (op a a))
-    | Coq_xO p0 -> iter_op op p0 (op a a)
-    | Coq_xH -> a
-
-  (** val to_nat : positive -> nat **)
-
-  let to_nat x =
-    iter_op Nat.add x (S O)
 
   (** val eq_dec : positive -> positive -> bool **)
 
